@@ -63,7 +63,7 @@ def main(argv=None):
             print("    ERROR " + e.replace("\n", "\n      "), flush=True)
 
     print(f"[{pid}] tier={tier} jobs={len(jobs)} open findings={sorted(open_ids)}", flush=True)
-    results = run_jobs(jobs, open_ids, log=log)
+    results = run_jobs(jobs, {fid: findings[fid] for fid in open_ids}, log=log)
     results += extra
 
     violations = []
